@@ -124,6 +124,15 @@ def concretise(abstract, rnd):
                 exists[b] = True
             else:
                 b = rnd.choice(cand)
+        if o == "fail":
+            # an operation that raises: replace-last on an empty bucket, or update / delete of a bucket that does not exist
+            empties = [x for x in BUCKETS if exists[x] and count[x] == 0]
+            absent = [x for x in BUCKETS if not exists[x]] or ["Z"]
+            if empties and rnd.random() < 0.6:
+                ops.append({"op": "fail_replace_last", "b": rnd.choice(empties)})
+            else:
+                ops.append({"op": rnd.choice(["fail_delete_bucket", "fail_update_bucket", "fail_lookup"]), "b": rnd.choice(absent)})
+            continue
         if o == "learn":
             ops.append({"op": "learn", "b": b})
         elif o == "read":
@@ -199,6 +208,10 @@ def random_abstract(rnd):
                 out.append({"op": "read", "n": 0})
             else:
                 out.append({"op": "bucket", "n": rnd.choice([1, 1, 2])})
+        if rnd.random() < 0.12:
+            out.append({"op": "fail", "n": 0})
+            if rnd.random() < 0.5:
+                out.insert(max(0, len(out) - 3), {"op": "bucket", "n": 1})      # a freshly created (empty) bucket to fail on
     return out[:120]
 
 
@@ -239,104 +252,122 @@ class Runner:
             o = op["op"]
             b = op.get("b")
             w = []
-            if o == "tick":
-                FakeDT.off += timedelta(seconds=op["d"])
-            elif o == "create":
-                ds.create_bucket(b, "t", "c", "h", name=op["m"])
-                w = [{"k": "bcreate", "b": b, "m": op["m"]}]
-            elif o == "update":
-                ds.update_bucket(b, name=op["m"])
-                w = [{"k": "bupdate", "b": b, "m": op["m"]}]
-            elif o == "delete_bucket":
-                ds.delete_bucket(b)
-                w = [{"k": "bclear", "b": b}, {"k": "bdelete", "b": b}]
-            elif o == "insert":
-                e, t = self.ev()
-                r = ds[b].insert(e)
-                self.ids[i] = (r.id, t)
-                self.bytag.setdefault(b, {})[t] = r.id
-                w = [{"k": "ins", "b": b, "t": t}]
-            elif o == "insert_many":
-                evs = [self.ev() for _ in range(op["n"])]
-                ds[b].insert([e for e, _ in evs])
-                w = [{"k": "ins", "b": b, "t": t} for _, t in evs]
-            elif o == "upsert_many":
-                evl = []
-                for h in op["hs"]:
-                    if h in self.ids:
+            raised = "none"
+            try:
+                if o == "tick":
+                    FakeDT.off += timedelta(seconds=op["d"])
+                elif o == "create":
+                    ds.create_bucket(b, "t", "c", "h", name=op["m"])
+                    w = [{"k": "bcreate", "b": b, "m": op["m"]}]
+                elif o == "update":
+                    ds.update_bucket(b, name=op["m"])
+                    w = [{"k": "bupdate", "b": b, "m": op["m"]}]
+                elif o == "delete_bucket":
+                    ds.delete_bucket(b)
+                    w = [{"k": "bclear", "b": b}, {"k": "bdelete", "b": b}]
+                elif o == "insert":
+                    e, t = self.ev()
+                    r = ds[b].insert(e)
+                    self.ids[i] = (r.id, t)
+                    self.bytag.setdefault(b, {})[t] = r.id
+                    w = [{"k": "ins", "b": b, "t": t}]
+                elif o == "insert_many":
+                    evs = [self.ev() for _ in range(op["n"])]
+                    ds[b].insert([e for e, _ in evs])
+                    w = [{"k": "ins", "b": b, "t": t} for _, t in evs]
+                elif o == "upsert_many":
+                    evl = []
+                    for h in op["hs"]:
+                        if h in self.ids:
+                            e, t = self.ev()
+                            e.id = self.ids[h][0]
+                            w.append({"k": "rew", "b": b, "old": self.ids[h][1], "t": t})
+                            self.ids[h] = (self.ids[h][0], t)
+                            evl.append(e)
+                    if evl:
+                        ds[b].insert(evl)
+                elif o == "replace":
+                    if op["h"] in self.ids:
                         e, t = self.ev()
-                        e.id = self.ids[h][0]
-                        w.append({"k": "rew", "b": b, "old": self.ids[h][1], "t": t})
-                        self.ids[h] = (self.ids[h][0], t)
-                        evl.append(e)
-                if evl:
-                    ds[b].insert(evl)
-            elif o == "replace":
-                if op["h"] in self.ids:
-                    e, t = self.ev()
-                    ds[b].replace(self.ids[op["h"]][0], e)
-                    w = [{"k": "rew", "b": b, "old": self.ids[op["h"]][1], "t": t}]
-                    self.ids[op["h"]] = (self.ids[op["h"]][0], t)
-            elif o == "replace_last_blind":
-                # no read first: the newest event is the one with the largest (strictly increasing) timestamp written so far
-                lv = self.live.get(b, {})
-                if lv:
-                    old = max(lv)   # tags grow with the timestamps
-                    e, t = self.ev()
-                    ds[b].replace_last(e)
-                    w = [{"k": "rew", "b": b, "old": old, "t": t}]
-                    for h, (i_, t_) in list(self.ids.items()):
-                        if t_ == old:
-                            self.ids[h] = (i_, t)
-            elif o == "replace_last":
-                # which event is the newest is read back from the store before (that read flushes, as in real use)
-                last = ds[b].get(1)
-                if last:
-                    e, t = self.ev()
-                    ds[b].replace_last(e)
-                    w = [{"k": "rew", "b": b, "old": last[0].data["t"], "t": t}]
-                    for h, (i_, t_) in list(self.ids.items()):
-                        if i_ == last[0].id and t_ == last[0].data["t"]:
-                            self.ids[h] = (i_, t)
-            elif o == "delete":
-                if op["h"] in self.ids:
-                    i_, t_ = self.ids.pop(op["h"])
-                    self.bytag.get(b, {}).pop(t_, None)
-                    ds[b].delete(i_)
-                    w = [{"k": "rem", "b": b, "t": t_}]
-            elif o == "learn":
-                # a read that tells the caller the ids of everything in the bucket (flushes, like every read)
-                self.bytag[b] = {e.data["t"]: e.id for e in ds[b].get(-1)}
-            elif o == "delete_known":
-                # delete by id without reading first: oldest event whose id the caller knows
-                kn = self.bytag.get(b, {})
-                lv = self.live.get(b, {})
-                cand = sorted(t_ for t_ in kn if t_ in lv)
-                if cand:
-                    gone = kn.pop(cand[0])
-                    ds[b].delete(gone)
-                    w = [{"k": "rem", "b": b, "t": cand[0]}]
-                    for h, (i_, t_) in list(self.ids.items()):
-                        if t_ == cand[0]:
-                            self.ids.pop(h)
-            elif o == "delete_newest":
-                last = ds[b].get(1)
-                if last:
-                    ds[b].delete(last[0].id)
-                    w = [{"k": "rem", "b": b, "t": last[0].data["t"]}]
-                    for h, (i_, t_) in list(self.ids.items()):
-                        if i_ == last[0].id:
-                            self.ids.pop(h)
-            elif o == "delete_dead":
-                ds[b].delete(987654321)
-            elif o == "get":
-                ds[b].get(-1)
-            elif o == "get1":
-                ds[b].get(1)
-            elif o == "count":
-                ds[b].get_eventcount()
-            elif o == "byid":
-                ds[b].get_by_id(1)
+                        ds[b].replace(self.ids[op["h"]][0], e)
+                        w = [{"k": "rew", "b": b, "old": self.ids[op["h"]][1], "t": t}]
+                        self.ids[op["h"]] = (self.ids[op["h"]][0], t)
+                elif o == "replace_last_blind":
+                    # no read first: the newest event is the one with the largest (strictly increasing) timestamp written so far
+                    lv = self.live.get(b, {})
+                    if lv:
+                        old = max(lv)   # tags grow with the timestamps
+                        e, t = self.ev()
+                        ds[b].replace_last(e)
+                        w = [{"k": "rew", "b": b, "old": old, "t": t}]
+                        for h, (i_, t_) in list(self.ids.items()):
+                            if t_ == old:
+                                self.ids[h] = (i_, t)
+                elif o == "replace_last":
+                    # which event is the newest is read back from the store before (that read flushes, as in real use)
+                    last = ds[b].get(1)
+                    if last:
+                        e, t = self.ev()
+                        ds[b].replace_last(e)
+                        w = [{"k": "rew", "b": b, "old": last[0].data["t"], "t": t}]
+                        for h, (i_, t_) in list(self.ids.items()):
+                            if i_ == last[0].id and t_ == last[0].data["t"]:
+                                self.ids[h] = (i_, t)
+                elif o == "delete":
+                    if op["h"] in self.ids:
+                        i_, t_ = self.ids.pop(op["h"])
+                        self.bytag.get(b, {}).pop(t_, None)
+                        ds[b].delete(i_)
+                        w = [{"k": "rem", "b": b, "t": t_}]
+                elif o == "learn":
+                    # a read that tells the caller the ids of everything in the bucket (flushes, like every read)
+                    self.bytag[b] = {e.data["t"]: e.id for e in ds[b].get(-1)}
+                elif o == "delete_known":
+                    # delete by id without reading first: oldest event whose id the caller knows
+                    kn = self.bytag.get(b, {})
+                    lv = self.live.get(b, {})
+                    cand = sorted(t_ for t_ in kn if t_ in lv)
+                    if cand:
+                        gone = kn.pop(cand[0])
+                        ds[b].delete(gone)
+                        w = [{"k": "rem", "b": b, "t": cand[0]}]
+                        for h, (i_, t_) in list(self.ids.items()):
+                            if t_ == cand[0]:
+                                self.ids.pop(h)
+                elif o == "delete_newest":
+                    last = ds[b].get(1)
+                    if last:
+                        ds[b].delete(last[0].id)
+                        w = [{"k": "rem", "b": b, "t": last[0].data["t"]}]
+                        for h, (i_, t_) in list(self.ids.items()):
+                            if i_ == last[0].id:
+                                self.ids.pop(h)
+                elif o == "delete_dead":
+                    ds[b].delete(987654321)
+                elif o.startswith("fail_"):
+                    try:
+                        if o == "fail_replace_last":
+                            e, t = self.ev()
+                            ds[b].replace_last(e)
+                            # a backend may also treat this as a no-op; it must not create an event
+                        elif o == "fail_delete_bucket":
+                            ds.delete_bucket(b)
+                        elif o == "fail_update_bucket":
+                            ds.update_bucket(b, name="zz")
+                        else:
+                            ds[b]
+                    except Exception:
+                        pass
+                elif o == "get":
+                    ds[b].get(-1)
+                elif o == "get1":
+                    ds[b].get(1)
+                elif o == "count":
+                    ds[b].get_eventcount()
+                elif o == "byid":
+                    ds[b].get_by_id(1)
+            except Exception as ex:      # an operation of the history raised: recorded, the history goes on
+                raised = type(ex).__name__
             for x in w:
                 lv = self.live.setdefault(x["b"], {})
                 if x["k"] == "ins":
@@ -349,7 +380,7 @@ class Runner:
                 elif x["k"] in ("bclear", "bcreate"):
                     lv.clear()
             if log is not None:
-                log.append(dict(op, writes=w))
+                log.append(dict(op, writes=w, raised=raised))
 
 
 def _child(fn):
@@ -459,7 +490,7 @@ def record_history(kind, ops, root, rnd, nkills):
             t += rec["d"]
         flat += rec["writes"]
         endidx.append(len(flat))
-    slim = [{"op": r["op"], "writes": r["writes"]} for r in log]
+    slim = [{"op": r["op"], "writes": r["writes"], "raised": r.get("raised", "none")} for r in log]
     return {"lazy": kind == "sqlite", "ops": slim, "flat": flat, "endidx": endidx, "timeof": timeof, "obs": obs}
 
 
